@@ -10,6 +10,7 @@ import (
 	"google.golang.org/protobuf/internal/strs"
 	"google.golang.org/protobuf/proto"
 	"google.golang.org/protobuf/reflect/protoreflect"
+	"google.golang.org/protobuf/reflect/protoregistry"
 	"google.golang.org/protobuf/zverifsim/gen"
 	"google.golang.org/protobuf/zverifsim/sim"
 )
@@ -83,6 +84,22 @@ func msgPaths(m protoreflect.Message, maxDepth int) [][]int32 {
 			p := append(append([]int32(nil), prefix...), int32(fd.Number()))
 			out = append(out, p)
 			walk(m.Get(fd).Message(), p, d+1)
+		}
+		if m.Descriptor().ExtensionRanges().Len() > 0 {
+			// populated singular message-typed extension fields, by number
+			var xs []protoreflect.FieldDescriptor
+			m.Range(func(fd protoreflect.FieldDescriptor, _ protoreflect.Value) bool {
+				if fd.IsExtension() && fd.Message() != nil && !fd.IsList() && !fd.IsMap() {
+					xs = append(xs, fd)
+				}
+				return true
+			})
+			sort.Slice(xs, func(i, j int) bool { return xs[i].Number() < xs[j].Number() })
+			for _, fd := range xs {
+				p := append(append([]int32(nil), prefix...), int32(fd.Number()))
+				out = append(out, p)
+				walk(m.Get(fd).Message(), p, d+1)
+			}
 		}
 	}
 	walk(m, nil, 0)
@@ -296,5 +313,14 @@ func deepDigest(m protoreflect.Message, depth int, path []int32, ptrs *[]ptrRec)
 
 // fieldByNumber resolves a path element.
 func fieldByNumber(m protoreflect.Message, n int32) protoreflect.FieldDescriptor {
-	return m.Descriptor().Fields().ByNumber(protoreflect.FieldNumber(n))
+	if fd := m.Descriptor().Fields().ByNumber(protoreflect.FieldNumber(n)); fd != nil {
+		return fd
+	}
+	// a path may lead through a message-typed extension field
+	if m.Descriptor().ExtensionRanges().Has(protoreflect.FieldNumber(n)) {
+		if xt, err := protoregistry.GlobalTypes.FindExtensionByNumber(m.Descriptor().FullName(), protoreflect.FieldNumber(n)); err == nil {
+			return xt.TypeDescriptor()
+		}
+	}
+	return nil
 }
